@@ -349,7 +349,13 @@ func (s *socket) onDrain() {
 func (s *socket) MaybeUpgrade(transport transports.Transport) {
 	socket_log.Debug(`might upgrade socket transport from "%s" to "%s"`, s.Transport().Name(), transport.Name())
 
-	s.upgrading.Store(true)
+	// one candidate at a time: two that arrived at the same moment have both
+	// passed the server's test of Upgrading() before either got here
+	if !s.upgrading.CompareAndSwap(false, true) {
+		socket_log.Debug("transport has already been trying to upgrade")
+		transport.Close()
+		return
+	}
 	vhook.Yield("socket.MaybeUpgrade.entered")
 
 	var check, cleanup func()
